@@ -607,6 +607,38 @@ def rule_ordflow(repo, tier):
         for c in bad:
             res.add(Finding('C18.ORD', f, '%s computes the distance `%s` without its `ord` option: neighbours are ranked / counted in the Euclidean norm whatever norm the '
                             'caller asked for' % (q, src(c)[:50]), node=c, construct='distance without ord|' + norm_construct(c, f.node)))
+    # pixel2point inverts an upper-triangular K row by row: the y component is built from row 1 of K only (fy, cy) and pixel v, the x component from row 0
+    # (fx, skew, cx), pixel u and the y component
+    pf = repo.func(GEO, 'pixel2point')
+    prets = returns_of(pf.node)
+    pv = inline_straight(pf.node, upto=prets[0]).value(prets[0].value) if len(prets) == 1 else None
+    if isinstance(pv, ast.Call) and dotted(pv.func) == 'torch.stack' and pv.args and isinstance(pv.args[0], (ast.List, ast.Tuple)) and len(pv.args[0].elts) == 3:
+        kname, pxname = pf.pos_params[2], pf.pos_params[0]
+        def entries(e):
+            out = set()
+            for x in ast.walk(e):
+                if isinstance(x, ast.Subscript) and isinstance(x.value, ast.Name) and x.value.id == kname and isinstance(x.slice, ast.Tuple):
+                    idx = [y.value for y in x.slice.elts if isinstance(y, ast.Constant) and isinstance(y.value, int)]
+                    if len(idx) == 2:
+                        out.add(tuple(idx))
+            return out
+        def pix(e):
+            out = set()
+            for x in ast.walk(e):
+                if isinstance(x, ast.Subscript) and isinstance(x.value, ast.Name) and x.value.id == pxname and isinstance(x.slice, ast.Tuple):
+                    idx = [y.value for y in x.slice.elts if isinstance(y, ast.Constant) and isinstance(y.value, int)]
+                    out |= set(idx)
+            return out
+        ex, ey, ez = pv.args[0].elts
+        rows_y = {i for i, j in entries(ey)}
+        oky = rows_y <= {1} and pix(ey) <= {1} and bool(entries(ey))
+        res.inst({'function': pf.fq, 'y component reads K entries': sorted(entries(ey)), 'pixel columns': sorted(pix(ey)), 'row 1 and pixel v only': oky}, (pf.fq, 'rows'))
+        if not oky:
+            res.add(Finding('C18.ORD', pf, 'the y component of pixel2point reads K entries %s and pixel columns %s: the inverse of the upper-triangular intrinsics uses row 1 '
+                            '(fy, cy) and v for y - fx in place of fy is invisible only for square pixels' % (sorted(entries(ey)), sorted(pix(ey))), node=prets[0],
+                            construct='y component reads another row of K'))
+        if entries(ez):
+            res.add(Finding('C18.ORD', pf, 'the z component of pixel2point depends on the intrinsics', node=prets[0], construct='z component reads K'))
     h = repo.func(GEO, 'homo2cart')
     clamps = [c for c in ast.walk(h.node) if isinstance(c, ast.Call) and (dotted(c.func) or (c.func.attr if isinstance(c.func, ast.Attribute) else '')).split('.')[-1]
               in ('clamp', 'clamp_', 'clamp_min', 'clamp_min_', 'clip', 'maximum')]
@@ -618,6 +650,18 @@ def rule_ordflow(repo, tier):
             e = defs[e.id]
         okg = isinstance(e, ast.Attribute) and e.attr in ('tiny', 'smallest_normal')
         res.inst({'function': h.fq, 'zero-division floor': src(lo)[:40] if lo is not None else None, 'is the smallest normal number': okg}, (h.fq, src(c)[:50]))
+        # the floor is applied to the MAGNITUDE |w| (the sign is restored afterwards): a lower clamp of the signed value lifts every negative w to +tiny
+        recv = c.func.value if isinstance(c.func, ast.Attribute) and not (dotted(c.func) or '').startswith('torch.') else (c.args[0] if c.args else None)
+        r_ = recv
+        for _ in range(3):
+            if isinstance(r_, ast.Name) and r_.id in defs:
+                r_ = defs[r_.id]
+        is_abs = isinstance(r_, ast.Call) and ((isinstance(r_.func, ast.Attribute) and r_.func.attr == 'abs') or dotted(r_.func) in ('torch.abs', 'abs'))
+        res.inst({'function': h.fq, 'clamped quantity': src(r_)[:40] if r_ is not None else None, 'is a magnitude': is_abs}, (h.fq, 'abs', src(c)[:50]))
+        if not is_abs:
+            res.add(Finding('C18.ORD', h, 'homo2cart clamps `%s` from below, which is not the magnitude |w|: a negative homogeneous coordinate is lifted to the positive floor and '
+                            'the point is sent to infinity (points behind the camera in point2pixel)' % (src(r_)[:40] if r_ is not None else '?'), node=c,
+                            construct='floor on a signed quantity'))
         if not okg:
             res.add(Finding('C18.ORD', h, 'homo2cart floors the homogeneous coordinate with `%s`: a representable |w| below that floor (but far above the smallest normal number) is '
                             'replaced, and homo2cart(s * cart2homo(p)) is no longer p for small s' % (src(e)[:40] if e is not None else '?'), node=c,
